@@ -258,12 +258,23 @@ func panicClass(p string) string {
 	return "other"
 }
 
-func newC10World() *env.Env {
-	e := env.New(env.Opts{NUsers: 3, Tokens: []string{"ceth", "cusdc"}})
+var c10Tokens = []string{"cada", "cdash", "ceth", "clink", "cusdc", "cwbtc"}
+
+// newC10World: ceth and cusdc pools always; with extra > 0 further pools of the same depth (equal weights round
+// up at 18 digits, so per-pool shares can add up to more than the whole)
+func newC10World() *env.Env { return newC10WorldN(0) }
+
+func newC10WorldN(extra int) *env.Env {
+	e := env.New(env.Opts{NUsers: 3, Tokens: c10Tokens})
 	e.BeginBlock()
 	n := chain.E(24)
 	mustOK(e.CreatePool(e.Users[0], "ceth", n, n), "pool ceth")
 	mustOK(e.CreatePool(e.Users[0], "cusdc", n, n), "pool cusdc")
+	for i, t := range []string{"cada", "cdash", "clink", "cwbtc"} {
+		if i < extra {
+			mustOK(e.CreatePool(e.Users[0], t, n, n), "pool "+t)
+		}
+	}
 	return e
 }
 
@@ -460,7 +471,7 @@ func C10(c Ctx) *report.Report {
 	// ---- (a) admin policy messages with boundary values, each followed by a policy period of blocks ----
 	n := c.N(480, 8000)
 	for i := 0; i < n; i++ {
-		e := newC10World()
+		e := newC10WorldN([]int{0, 0, 1, 2, 4}[rng.Intn(5)])
 		if rng.Intn(2) == 0 {
 			e.BlockStep = 25 * time.Minute // hour epochs fire every third block
 		}
@@ -570,6 +581,25 @@ func c10UserHistories(c Ctx, rep *report.Report, rng *chain.Rng) []int {
 		wallet := rng.Intn(2) == 0
 		mustOK(e.UpdateRewardsParams(0, 0, lockP, "hour", wallet), "rewards params")
 		script = append(script, fmt.Sprintf("admin: rewards lock period %d, epoch hour, distribute to wallets %v", lockP, wallet))
+		if h%4 == 1 {
+			// several pools of one depth and an ordinary reward period (inside the envelope)
+			np := 3 + rng.Intn(4)
+			depth := new(big.Int).Mul(big.NewInt(int64(1+rng.Intn(1000))), chain.E(18))
+			env6 := env.New(env.Opts{NUsers: 4, Tokens: c10Tokens, Funds: new(big.Int).Mul(big.NewInt(4), pow2(128))})
+			env6.BlockStep = e.BlockStep
+			env6.BeginBlock()
+			e = env6
+			for i := 0; i < np; i++ {
+				log(fmt.Sprintf("create %s %s/%s by user0", c10Tokens[i], depth, depth), e.CreatePool(e.Users[0], c10Tokens[i], depth, depth))
+			}
+			alloc := sdk.NewUintFromBigInt(new(big.Int).Mul(big.NewInt(int64(1+rng.Intn(100))), chain.E(int64(15+rng.Intn(6)))))
+			one := sdk.OneDec()
+			st := uint64(e.Height + 1)
+			rp := &clptypes.RewardPeriod{RewardPeriodId: "rp", RewardPeriodStartBlock: st, RewardPeriodEndBlock: st + uint64(3+rng.Intn(12)), RewardPeriodAllocation: &alloc,
+				RewardPeriodDefaultMultiplier: &one, RewardPeriodDistribute: rng.Intn(2) == 0, RewardPeriodMod: uint64(1 + rng.Intn(2))}
+			mustOK(e.AddRewardPeriods([]*clptypes.RewardPeriod{rp}), "reward period")
+			script = append(script, fmt.Sprintf("admin: reward period %d..%d allocation %s mod %d distribute %v", rp.RewardPeriodStartBlock, rp.RewardPeriodEndBlock, alloc, rp.RewardPeriodMod, rp.RewardPeriodDistribute))
+		}
 		if scripted {
 			// zero-unit provider: pool with units < external depth, a 1-base-unit asymmetric add by another user,
 			// bucket funded, the real provider keeps refreshing its record with dust adds
